@@ -155,6 +155,15 @@ func symxC06C() {
 		seen = len(pubs)
 	}
 	rt.Cover(len(outstanding) == int(max), "C06.wire.pool_exhausted")
+	if rt.Bool("session_ends") {
+		// the session goes away with deliveries in flight: after the next sweep every identifier is free again
+		b.local.Delete("s")
+		symxSweepNow(b)
+		pool := b.writer.midPool.(*simpleMidPool)
+		for id := int32(1); id <= max; id++ {
+			rt.Assert(symxFree(pool.intervals, id), "C06.wire.no_identifier_leaks_when_the_session_ends")
+		}
+	}
 	b.cancel()
 	rt.Quiesce()
 }
